@@ -59,7 +59,16 @@ func (c e2eConfig) build(backend http.Handler, unknown http.Handler) (*vanguard.
 	if c.MaxGet != 0 {
 		opts = append(opts, vanguard.WithMaxGetURLBytes(c.MaxGet))
 	}
-	svc := vanguard.NewService(c.Service, backend, opts...)
+	var svc *vanguard.Service
+	switch schemaMode {
+	case 1:
+		svc = vanguard.NewServiceWithSchema(dynamicServiceDesc(c.Service, 1), backend, opts...)
+	case 2:
+		opts = append(opts, vanguard.WithTypeResolver(emptyResolver{}))
+		svc = vanguard.NewServiceWithSchema(dynamicServiceDesc(c.Service, 2), backend, opts...)
+	default:
+		svc = vanguard.NewService(c.Service, backend, opts...)
+	}
 	var topts []vanguard.TranscoderOption
 	if c.Unknown && unknown != nil {
 		topts = append(topts, vanguard.WithUnknownHandler(unknown))
@@ -464,6 +473,13 @@ func hdrV(h http.Header) L {
 		if k == "Trailer" || k == "Allow" {
 			// built by iterating a Go map: order is unspecified, compare as a set
 			vals = append([]string(nil), vals...)
+			if k == "Allow" {
+				for i, v := range vals {
+					parts := strings.Split(v, ",")
+					sort.Strings(parts)
+					vals[i] = strings.Join(parts, ",")
+				}
+			}
 			sort.Strings(vals)
 		}
 		out = append(out, L{B(k), Bl(vals)})
